@@ -284,6 +284,12 @@ func New(config ...Config) fiber.Handler {
 
 // Check if request has directive
 func hasRequestDirective(c fiber.Ctx, directive string) bool {
-	// directive names are case-insensitive (RFC 9111, section 5.2)
-	return strings.Contains(utils.ToLower(c.Get(fiber.HeaderCacheControl)), directive)
+	// directive names are case-insensitive (RFC 9111, section 5.2); several Cache-Control
+	// field lines are one list, so every line is looked at
+	for _, line := range c.Request().Header.PeekAll(fiber.HeaderCacheControl) {
+		if strings.Contains(utils.ToLower(string(line)), directive) {
+			return true
+		}
+	}
+	return false
 }
